@@ -25,6 +25,7 @@ type ctxVal struct {
 	ctx ssa.CallInstruction
 }
 type mapKeyNode struct{ m vnode }
+type dbKeyNode struct{ key string }
 
 type VFlow struct {
 	P       *Prog
@@ -382,6 +383,13 @@ func (g *VFlow) callResult(c *ssa.Call, dst ssa.Value, idx int, ctx ssa.CallInst
 			g.flow(retNode{callee, idx, nil}, D, dst.Type())
 		}
 	}
+	if !anyRepo && strings.HasSuffix(calleeName(c.Common()), "bbolt.Bucket).Get") {
+		if k, ok := strConst(c.Call.Args[1]); ok {
+			// database values are keyed like fields: Get("K") reads what Put("K", v) wrote
+			g.flow(dbKeyNode{k}, D, dst.Type())
+			return
+		}
+	}
 	if !anyRepo {
 		// library: every argument may flow into every result
 		for _, a := range callArgs(c.Common()) {
@@ -433,6 +441,13 @@ func (g *VFlow) libSummary(c ssa.CallInstruction, ctx ssa.CallInstruction) {
 			for _, a := range args[2:] {
 				g.edge(C(a), C(args[1]))
 			}
+		}
+	case strings.HasSuffix(n, "bbolt.Bucket).Put"):
+		if k, ok := strConst(args[1]); ok {
+			g.edge(V(args[2]), dbKeyNode{k})
+			g.edge(C(args[2]), dbKeyNode{k})
+		} else {
+			g.edge(V(args[2]), V(args[0]))
 		}
 	case n == "encoding/json.Unmarshal" || strings.HasSuffix(n, "json.Decoder).Decode"):
 		if len(args) >= 2 {
@@ -538,6 +553,8 @@ func nodeString(n vnode) string {
 		return Expr(x.v) + "@call"
 	case mapKeyNode:
 		return "key-of(" + nodeString(x.m) + ")"
+	case dbKeyNode:
+		return "db[" + x.key + "]"
 	case ssa.Value:
 		return Expr(x)
 	}
